@@ -159,7 +159,9 @@ def processCompletedBlock (v : Variant) (b : Blk) : M Unit :=
 /-- backend.c:121-249 -/
 def processCompletedFragment (v : Variant) (frag : Blk) : M Unit := do
   if frag.sparse then do                                                  -- backend.c:129-138
-    if frag.hasInode then prim v .growSparseTail                          -- backend.c:132  RESULT IGNORED
+    -- backend.c:132: RESULT IGNORED in the pinned source; with fixes/C13-sparse-tail-result.patch a failure
+    -- takes the `fail:` exit, which releases the fragment
+    if frag.hasInode then onError (prim v .growSparseTail) releaseOld
     modP releaseOld
   else do
     prim v .fragLookup                                                    -- backend.c:142-155
